@@ -78,7 +78,8 @@ def bounded_lookahead(R, rep):
             rep.ob("R1", f"{b.short}:forwarder", True, "only passes the timeline on to callees (classified separately)", b.loc(), key=f"R1:{b.short}")
             continue
         if "iter" in kinds and not any(k.startswith("other:") for k in kinds):
-            # same-date scan: filter closure requires date equality with a parameter
+            # same-date scan: the element filter requires date equality with a date parameter — as a `filter` closure or as
+            # guards around every accumulation inside a loop over the slice
             ok = False
             dparam = None
             for i, t in b.calls():
@@ -97,6 +98,24 @@ def bounded_lookahead(R, rep):
                                     for cp in caps:
                                         if isinstance(cp, tuple) and cp[0] == "param" and "NaiveDate" in b.local_ty(cp[1] + 1):
                                             dparam = cp[1]
+            if not ok:
+                from mir import is_decimal_arith, is_decimal_arith_assign
+                acc = [(i, t) for i, t in b.calls() if is_decimal_arith(t["callee"]) or is_decimal_arith_assign(t["callee"])
+                       or parse_callee(t["callee"])[2] in ("push", "insert", "extend")]
+                guarded = 0
+                for i, t in acc:
+                    for cnd, val, s in guards_of(b, tb, i):
+                        if isinstance(cnd, tuple) and cnd[0] == "cmp" and cnd[1] in ("Eq", "Ne") and (truth(val) == (cnd[1] == "Eq")):
+                            for el, other in ((cnd[2], cnd[3]), (cnd[3], cnd[2])):
+                                if show(el).endswith(".date") and "next(" in show(el, 0) and isinstance(other, tuple) and other[0] == "param" \
+                                        and "NaiveDate" in b.local_ty(other[1] + 1):
+                                    guarded += 1
+                                    dparam = other[1]
+                                    break
+                            else:
+                                continue
+                            break
+                ok = bool(acc) and guarded == len(acc)
             sites_ok = True
             why_sites = ""
             if ok and dparam is not None:
@@ -122,39 +141,41 @@ def prepass_influence(R, rep):
     F = R.F
     d = R.require("dayloop")
     pre = R.require("prepass")
-    tb = R.terms(d, 0)
-    # result local of the pre-pass call in the day loop
-    for i, t in d.calls():
-        if t["callee"] != pre.id:
+    rg = R.region(d)
+    helper_ids = set(rg.bodies)
+    bad = []
+    for it in rg.items:
+        u = it["term"]
+        if u["callee"] == pre.id or u["callee"] in helper_ids:
             continue
-        # every other call argument mentioning the result
-        bad = []
-        for j, u in d.calls():
-            if j == i:
-                continue
-            for ai, a in enumerate(u["args"]):
-                term = tb.operand(a)
-                if any(isinstance(x, tuple) and x and x[0] == "call" and x[1] == pre.id for x in subterms(term)):
-                    m = parse_callee(u["callee"])[2]
-                    ok = m in ("get", "branch", "deref", "as_slice", "from_residual", "index", "len", "drop") or u["callee"] == R.require("cascade").id \
-                        or u["callee"].endswith("AcquisitionExtras::new") or u["callee"].endswith("add_acquisition") or m in ("copied", "unwrap_or")
-                    if not ok:
-                        bad.append(u["callee"])
-        rep.ob("R2", "prepass:result-used-as-offsets-only", not bad, "the pre-pass result is only indexed for cost offsets and handed to the cascade" if not bad else
-               f"the pre-pass result also flows into {bad}", d.loc(t["sp"]), key="R2:prepass:uses")
+        for ai in range(len(u["args"])):
+            term = rg.arg(it, ai)
+            if any(isinstance(x, tuple) and x and x[0] == "call" and x[1] == pre.id for x in subterms(term)):
+                m = parse_callee(u["callee"])[2]
+                ok = m in ("get", "branch", "deref", "as_slice", "from_residual", "index", "len", "drop", "copied", "unwrap_or", "as_ref") \
+                    or u["callee"] == R.require("cascade").id or u["callee"].endswith("AcquisitionExtras::new") or u["callee"].endswith("add_acquisition")
+                if not ok:
+                    bad.append(u["callee"])
+    rep.ob("R2", "prepass:result-used-as-offsets-only", not bad, "the pre-pass result is only indexed for cost offsets and handed to the cascade" if not bad else
+           f"the pre-pass result also flows into {sorted(set(bad))}", d.loc(), key="R2:prepass:uses")
     # in the 30-day producer the offsets reach the cost, never the quantity
     b, sites = R.leg("BedAndBreakfast")
     for bb, term, site in sites:
         q = agg_fields(term)["quantity"]
         mentions = "cost_offsets" in show(q, 0) or any(isinstance(x, tuple) and x and x[0] == "param" and "Decimal]" in b.local_ty(x[1] + 1) for x in subterms(q))
         if not mentions:
+            # a branch on an offset matters when anything but the choice of the offset VALUE depends on it: the blocks that are
+            # control-dependent on such a branch must be effect-free (no calls, no leg construction, no loop exit)
             tb0 = R.terms(b, 0)
             for sb in b.reachable():
                 sw = b.term(sb)
                 if sw["k"] == "switch":
                     cnd = tb0.operand(sw["discr"])
                     if any(isinstance(x, tuple) and x and x[0] == "param" and "Decimal]" in b.local_ty(x[1] + 1) for x in subterms(cnd)):
-                        mentions = True
+                        for cd in b.control_dependents(sb):
+                            t = b.term(cd)
+                            if t["k"] in ("call", "return", "switch", "assert") or any(s.get("rv", {}).get("k") == "agg" for s in b.stmts(cd)):
+                                mentions = True
         rep.ob("R2", "30-day:offsets-not-in-quantity", not mentions, "cost offsets enter neither a matched quantity nor a branch condition of the 30-day producer" if not mentions else
                "the whole-timeline pre-pass offsets influence which shares are matched (quantity term or branch condition)", site, key="R2:bnb:offset-in-quantity")
     # who writes offsets: delegated to C11
